@@ -137,3 +137,11 @@ Theorem C12_reverse_complement_string_is_source : forall s, ImpProofs.all_bytes 
   ImpGen.imp_sequtil_ReverseComplementString s = ImpProofs.of_outcome (rc_string s).
 Proof. exact ImpProofs.imp_ReverseComplementString. Qed.
 Print Assumptions C12_reverse_complement_string_is_source.
+
+(* ---- reverse complement twice, about the translated source -------------------------------------------- *)
+From Bio.Proofs Require ImpProofsW.
+Theorem C12_rc_involutive_is_source : forall s, dna10 s ->
+  exists r, ImpGen.imp_sequtil_ReverseComplement [] s = GoSem.Ret r
+            /\ ImpGen.imp_sequtil_ReverseComplement [] r = GoSem.Ret s.
+Proof. exact ImpProofsW.rc_involutive_src. Qed.
+Print Assumptions C12_rc_involutive_is_source.
